@@ -396,6 +396,10 @@ class ElfiModel(GraphicalModel):
         """
         kopy = super(ElfiModel, self).copy()
         kopy.name = "{}_copy_{}".format(self.name, random_name())
+        # Do not share the node state dicts or the observed data with the original
+        for _, data in kopy.source_net.nodes(data=True):
+            data['attr_dict'] = data['attr_dict'].copy()
+        kopy.observed = self.observed.copy()
         return kopy
 
     def save(self, prefix=None):
